@@ -294,6 +294,13 @@ def scan_create_closure(body: Tok, src: str, sk: Skeleton, create_param: str):
                     sk.sctl = name
                     sk.sctl_arg = _text(src, st[j - 1].kids)
                     continue
+                # `let X = { ... }` : a block that builds something (typically observers): descend
+                if name and st[i + 1].is_p('=') and len(st) == i + 3 and st[i + 2].is_group('{'):
+                    visit(st[i + 2].kids)
+                    if find_calls(st[i + 2].kids, 'new_observer'):
+                        continue
+                    sk.unknown.append(txt)
+                    continue
                 # helper closure
                 if name and st[i + 1].is_p('='):
                     cl = parse_closure(st[i + 2:], src)
@@ -310,11 +317,24 @@ def scan_create_closure(body: Tok, src: str, sk: Skeleton, create_param: str):
                     if parent is st:
                         sk.subscribe_target = _text(src, st[:idx - 1]) if idx >= 1 else ''
                 continue
+            if find_calls(st, 'new_observer'):
+                continue
             if sk.sctl is None:
                 sk.prologue.append(txt)
             else:
                 sk.unknown.append(txt)
     visit(body.kids)
+    # aliases anywhere below (e.g. inside the `.map(move |_| { let sctl_next = sctl.clone(); ... })` that builds observers)
+    def deep_aliases(kids):
+        for st in split_statements(kids):
+            if st and st[0].is_id('let'):
+                a = _alias(st)
+                if a and a[0] not in sk.alias and a[0] != a[1]:
+                    sk.alias[a[0]] = a[1]
+            for t in st:
+                if t.kind == 'group':
+                    deep_aliases(t.kids)
+    deep_aliases(body.kids)
     # handlers: every `new_observer(a, b, c)` in the closure
     for parent, idx, g in find_calls(body.kids, 'new_observer'):
         sk.n_new_observer += 1
@@ -436,7 +456,8 @@ def rewrite_body(cl: Closure, sk: Skeleton, src: str, op: str, captures: Dict[st
                             reps.append((t.start, t.end, 'sctl'))
                     i += 1
                     continue
-                if name in sk.helpers and i + 1 < len(ts) and ts[i + 1].is_group('('):
+                if canon in sk.helpers and name not in local_bound and i + 1 < len(ts) and ts[i + 1].is_group('('):
+                    name = canon
                     g = ts[i + 1]
                     extra = helper_sigs.get(name, [])
                     inner = src[g.start + 1:g.end - 1]
